@@ -18,5 +18,20 @@ p = os.path.join(HERE, "DESIGN.md")
 s = open(p).read()
 s = re.sub(r"<!-- FIXED-TABLE -->.*?<!-- /FIXED-TABLE -->", "<!-- FIXED-TABLE -->\n" + t1 + "<!-- /FIXED-TABLE -->", s, flags=re.S)
 s = re.sub(r"<!-- OPEN-TABLE -->.*?<!-- /OPEN-TABLE -->", "<!-- OPEN-TABLE -->\n" + t2 + "<!-- /OPEN-TABLE -->", s, flags=re.S)
+# --- seeded changes table
+import glob
+rows = ""
+for d in sorted(glob.glob(os.path.join(HERE, "seeded", "*"))):
+    mp, rp = os.path.join(d, "meta.json"), os.path.join(d, "result.json")
+    if not os.path.exists(mp):
+        continue
+    meta = json.load(open(mp))
+    res = json.load(open(rp)) if os.path.exists(rp) else {}
+    caught = ", ".join(res.get("caught_by") or []) or "**none**"
+    status = meta.get("status", "kept")
+    rows += "| `%s` | %s | %s | %s | %s | %s |\n" % (os.path.basename(d), meta.get("property"), esc(meta.get("summary", "")), esc(meta.get("needs_to_manifest", "")),
+                                                  caught, esc(meta.get("note", status)))
+t3 = "| seed | property | change | needs, to manifest | caught by (quick tier) | note |\n|------|----------|--------|--------------------|------------------------|------|\n" + rows
+s = re.sub(r"<!-- SEED-TABLE -->.*?<!-- /SEED-TABLE -->", lambda m: "<!-- SEED-TABLE -->\n" + t3 + "<!-- /SEED-TABLE -->", s, flags=re.S)
 open(p, "w").write(s)
 print("tables:", len(fixed), "fixed,", len(open_), "open")
